@@ -45,7 +45,7 @@ CLAIMED = {
          "arbitrary X1 (before/between/equal/after), both fast matmul branches, evaluate symmetric, diagonal = evaluate x x. The model is tied to "
          "kernels/quasisep.py by exact correspondence on a synthetic structured-coordinate integer kernel over every weak ordering of the merged "
          "points and by tolerance correspondence on 13 built-in kernels/expressions with tables from the implementation's own methods.",
-    note="Trusted: Coq kernel, model Model/SSKernel.v + Model/General.v, harness, JAX, and for the end-to-end theorems the translator (tables regenerated on every run) and the standard library's real-number axioms + classical epsilon (Base/RStruct.v). The laws are proved preserved by scale / sum / product / wrapper (laws_closed) and established for the source-generated tables of Exp, Matern-3/2, -5/2, Cosine, Celerite (W1/W2 join); SHO and CARMA laws remain in C18's list form. Rounding outside the theorems.",
+    note="Trusted: Coq kernel, model Model/SSKernel.v + Model/General.v, harness, JAX, and for the end-to-end theorems the translator (tables regenerated on every run) and the standard library's real-number axioms + classical epsilon (Base/RStruct.v). The laws are proved preserved by scale / sum / product / wrapper (laws_closed) and established for the source-generated tables of Exp, Matern-3/2, -5/2, Cosine, Celerite (W1/W2 join); SHO and CARMA laws remain in C18's list form. Rounding outside the theorems. SHO (three regimes) and Celerite are joined end to end as well; expressions (sums, products, scalings of any depth) are covered by structural induction over a syntax of kernel expressions (Theory/SSKExpr.v), instantiated on the regenerated built-in tables.",
     technique="Coq proof (chain of transition products by induction, prefix-count lemma for searchsorted) + exact/tolerance correspondence",
     ref="DESIGN.md section 6, C08"),
  "C11": dict(
@@ -86,7 +86,7 @@ CLAIMED = {
          "Model tied by tolerance correspondence (factor diagonal, whitened residual, log probability) for the direct, quasiseparable and Kalman solvers over kernels x noise "
          "(scalar, per-point, banded, dense) x means x sizes from 1 with coincident points, eager and jit, condition().log_probability and numpyro; numpy slogdet/solve oracle; non-PD / non-finite inputs give -inf.",
     note="Trusted: Coq kernel, model Model/GP.v + Model/Dense.v (stand-ins for LAPACK Cholesky / triangular solve: proved correct in Theory/DenseThy.v, tied to LAPACK by tolerance), harness, numpy oracle. Kernel matrices and means enter as data. "
-         "That a failed factorisation yields NaN (hence -inf) is XLA behaviour: observed, not proved. float32 not exercised in the quick tier.",
+         "That a failed factorisation yields NaN (hence -inf) is XLA behaviour: observed, not proved. Single precision is exercised with 64-bit types switched off (jax.enable_x64(False)) on all-float32 models, for every solver.",
     technique="Coq proof (Gaussian algebra + Cholesky/solve theorems composed) + tolerance correspondence of the pipeline model",
     ref="DESIGN.md section 6, C01"),
  "C02": dict(
@@ -145,7 +145,7 @@ CLAIMED = {
          "leaves; (quasiseparable family, any field, generic kernels) scaling and sums have the pointwise value, combinators return state-space kernels of dimension m1+m2 / m1*m2 / m; the operator table never "
          "yields a quasiseparable kernel from a mixed pair. The Kronecker state of products and nested combinations is tied by exact correspondence with the implementation on integer kernels; random trees of "
          "depth <= 3/4 in both families against recursive numpy evaluation, Quasisep-ness, solver selection, dense-namesake twins, mixing pairs.",
-    note="Trusted: Coq kernel (+ stdlib real axioms for the general family), translator, models Model/SSKernel.v and Model/Guards.v, harness. qs_product_pointwise (mixed-product property for the code's index map t -> (t mod m1, t div m1)) is a theorem.",
+    note="Trusted: Coq kernel (+ stdlib real axioms for the general family), translator, models Model/SSKernel.v and Model/Guards.v, harness. qs_product_pointwise (mixed-product property for the code's index map t -> (t mod m1, t div m1)) is a theorem. Quasiseparable expressions of any depth: qs_expression_pointwise (induction over the expression syntax; laws preserved, value = arithmetic on the leaves).",
     technique="Coq proof (induction over expression trees; block-diagonal algebra) + exact correspondence + oracle",
     ref="DESIGN.md section 6, C10"),
  "C15": dict(
